@@ -249,6 +249,11 @@ Rules (lib/BuildSystem/BuildSystem.cpp):
 * `ents p`      the directory listing as an input rule.  The real `DirectoryContentsTask` /
                 `FilteredDirectoryContentsTask` read the directory inside `inputsAvailable`; the engine model only
                 lets input rules read external state (`Program.WF`), so the read is a request to this key.
+                Valid iff equal to the `readdir` slot: that is `DirectoryContentsTask::isResultValid` (re-lists and
+                compares) and the filtered task once it has the same check (F57).  The filtered task AS CODED
+                (`IsValid = nullptr`) re-lists only when the directory's stat record changed: the engine then sees the
+                file system through `staleEnv` (Lemmas/DirTreeStat.lean; theorems with the explicit hypothesis
+                `StatDiscipline` and the counterexample without it in Props/C12Stat.lean).
 * `contents p`  `DirectoryContents(p)` / `FilteredDirectoryContents(p, filters)`: stat value + listing ↦ the
                 `BuildValue` (`dirValue`, `leafRootValue`).
 * `sig s p`     `DirectoryTreeSignature(p, filters)` (`s = false`) / `DirectoryTreeStructureSignature` (`s = true`):
